@@ -1,7 +1,8 @@
 import NasdaqModel.Model.GenHistory
 /-
-C17 witnesses: the three clauses of the property are FALSE for the library as it is (`actual`: files opened with 'a',
-class-level generator state never reset).  One concrete history per defect, each the negation of the conclusion of the
+C17 witnesses: the three clauses of the property were FALSE for the library before a5da5b2 / 6c43d46 / 388f25f (`actual`: files
+opened with 'a', class-level generator state never reset) — kept as documentation of the repaired defects and as regressions —
+and the project-tool clause is still false for `current` (`C17_witness_new_project_rerun_current`).  One concrete history per defect, each the negation of the conclusion of the
 corresponding theorem of Props/C17.lean with all its other hypotheses satisfied; the same histories are replayed on the
 implementation by harness/c17.py on every run (`witness_histories`).  Also: no single repair suffices (`…_needs_…`).
 -/
@@ -123,6 +124,13 @@ theorem C17_witness_new_project_rerun :
     ∧ read w.fs (.proj 1 projA, sPyproject) = some [.pyproject projA, .pyproject projA]
     ∧ configValid (read w.fs (.proj 1 projA, sTox)) = false
     ∧ configValid (read w.fs (.proj 1 projA, sPyproject)) = false := by decide
+
+/-- the same history for the library as it is now (`current`: generators repaired, project tool not): still false -/
+theorem C17_witness_new_project_rerun_current :
+    let w := (invoke current (run current w0 hNewProject.1) hNewProject.2).1
+    configValid (read w.fs (.proj 1 projA, sTox)) = false
+    ∧ configValid (read w.fs (.proj 1 projA, sPyproject)) = false
+    ∧ read w.fs (.proj 1 projA, sPyproject) = some [.pyproject projA, .pyproject projA] := by decide
 
 /-! no single repair is enough -/
 
